@@ -6,6 +6,7 @@ R11.1  registry read-modify-write-union: the dict loaded from the registry file 
 R11.2  the "shared core" predicate holds for every layout (core outside the client package at any depth, or embedded in it and re-used later)
        (the predicate's AST is evaluated over symbolic directory layouts of depth 1..4 by a path-algebra interpreter)
 R11.6  the generator rescues / seeds the registry under the file name the emitter reads and writes (writer / reader agreement)
+R11.7  emitted line lists are joined with a real line break (a one-line `__init__.py` re-exports nothing)                    [= R1.20]
 R11.5  a removal of the output package that precedes the exception emitter carries the registry of a contained core over (read before, written back after)
 R11.4  the import header of the regenerated alias file covers every base class the union of codes can need
 R11.3  core emission is additive: the core/exception emitters never delete, and always (re)write what they own
@@ -578,6 +579,10 @@ def run(repo: Repo, rep: Report, tier: str) -> None:
 
     rule_cleanup_keeps_registry(repo, rep, "R11.5")
     rule_registry_file_name_agrees(repo, rep, "R11.6")
+    # R11.7: the client package's __init__.py (which is the core's own __init__.py when core and client package coincide) is written as lines  [= R1.20]
+    from rules.c01 import rule_lines_joined_with_newline
+
+    rule_lines_joined_with_newline(repo, rep, "R11.7")
     # ---------------------------------------------------------------- R11.3 additive
     for spec in (f"{EE}:ExceptionsEmitter.emit", f"{EE}:ExceptionsEmitter._update_registry", "emitters.core_emitter:CoreEmitter.emit"):
         fn = repo.func(spec)
